@@ -78,6 +78,8 @@ def client_replay_instances(ctx):
         # the whole dial path: every answer of the relay, every fault, two dials racing on one destination through the
         # same / different relays, cancellation, address errors
         inst("dial", faults=[f for f in DIAL_FAULTS if f != "upfail2"], features=("cancel", "badaddr")),
+        # three dials over two destinations (independence of the per-destination dedup)
+        inst("dial3s", dests=("d1", "d2"), MaxDial=3, answers=("ok", "status"), faults=("nsfail",)),
         # the same with time: NewStream / answer time-outs racing with retries
         inst("dialtime", answers=("ok", "status", "garbage"), faults=("nsfail",), features=("time", "cancel")),
         # the accept side: STOP messages of every kind, late messages, two Accept callers, write failures of the answer,
@@ -170,6 +172,11 @@ def _edge_stats(g):
                 st[e["err"]] += 1
         if op.get("next"):
             st["waiter-takes-over"] += 1
+        hop = g.states[_t][6]
+        if any(v >= 2 for v in hop.values()):
+            st["two-circuits-through-one-relay"] += 1
+        if any(v < 0 for v in hop.values()):
+            st["negative-hop-count"] += 1
     return dict(st)
 
 
@@ -179,7 +186,7 @@ REQUIRED_KINDS = (
      "iclose", "iclose:second", "cancel", "dedup-ok", "dedup-proto", "waiter-takes-over", "tick:nstimeout", "tick:read",
      "tick->CONNECTION_FAILED", "tick->MALFORMED_MESSAGE", "tick->reset", "stop->queued", "stop->delivered", "stop->read",
      "stop->reset", "stop->MALFORMED_MESSAGE", "stop->UNEXPECTED_MESSAGE", "accept:blocked", "accept:delivered", "accept:closed",
-     "accept:skipped-unwritable", "closel", "closel:unblocked"]
+     "accept:skipped-unwritable", "closel", "closel:unblocked", "two-circuits-through-one-relay"]
     + ["respond:" + a for a in ALL_ANSWERS] + ["stop:" + m for m in ALL_STOPS] + ["stop:late"])
 
 
@@ -316,7 +323,7 @@ def run_part(ctx, thorough):
     rinsts = client_replay_instances(ctx)
     einsts = client_exhaustive_instances(ctx)
     mixed = [i for i in rinsts if i[0] == "mixed"][0]
-    big = {"accept": 0, "dial3": 0, "all": 0, "dial3same": 0, "mixed3": 1, "accept2": 1, "dial": 2}
+    big = {"accept": 0, "dial3": 0, "dial3s": 0, "all": 0, "dial3same": 0, "mixed3": 1, "accept2": 1, "dial": 2}
     jobs = [(_replay_instance, (ctx, i, beh)) for i in rinsts] + [(_exhaustive, (ctx, i, 1)) for i in einsts] + \
            [(_finding_one, (ctx, mixed, once)) for once in ("TRUE", "FALSE")] + [(_reserve_instance, (ctx, beh))] + \
            [(_live, (ctx, i)) for i in live_instances()]
@@ -341,6 +348,9 @@ def run_part(ctx, thorough):
     for k in RESERVE_KINDS:
         if not rsv["kinds"].get(k):
             raise MachineryError("vacuity guard: no Reserve transition of kind %s (%s)" % (k, rsv["kinds"]))
+    if rsv["kinds"].get("reply:ok-voucher-replayed"):
+        ctx.notes.append("OBSERVATION (no clause): Reserve accepts a genuine voucher of ANOTHER relay H (issued by H to this client) handed over by the relay "
+                         "it asked, and does not look at the voucher's own Expiration; reservation.go checks signer == voucher.Relay and voucher.Peer == self only")
     edges_total = sum(r["edges"] for r in rres)
     div = classify_mismatches(ctx, direct, "direct")
     dx = direct.get("extra") or {}
